@@ -39,6 +39,9 @@ def run_job(job):
 def main():
     from symx import instr
     instr.install_plain()
+    if os.environ.get("VERIF_FRAMEWORK", "twisted") == "twisted":
+        import txaio
+        txaio.use_twisted()
     mode, src = sys.argv[1], sys.argv[2]
     data = sys.stdin.read() if src == "-" else open(src).read()
     jobs = json.loads(data)
